@@ -18,6 +18,8 @@ N7  boolean flag consumed by the next statement
 N8  local dict literal            d = {"k": a, ...} bound once, only read  ==>  loads of d replaced by the literal (see _propagate_dict_literals)
 N9  any()/all() over a literal    any(E(k, v) for k, v in {...}.items())  ==>  E(k1, v1) or E(k2, v2) ...   for boolean-valued E (see _AnyAll)
 
+N10 getattr(x, "name") / setattr(x, "name", v) with an identifier literal  ==>  x.name / x.name = v
+
 N2  dict.update with keywords / a literal dict on such an attribute, as a statement
         self._cache.update(a=x, b=y)      /     self._cache.update({"a": x, "b": y})
     ==> self._cache["a"] = x; self._cache["b"] = y      (same order; dict.update assigns the keys one after another)
@@ -201,7 +203,9 @@ def _aliases(fnode):
 
 
 def _has_loop(fnode):
-    return any(isinstance(x, (ast.For, ast.AsyncFor, ast.While, ast.ListComp, ast.SetComp, ast.DictComp, ast.GeneratorExp)) for x in ast.walk(fnode))
+    """statement loops only: a comprehension cannot contain the assignments / attribute stores the textual-order arguments are about (a walrus inside one is
+    caught by the binding scan)"""
+    return any(isinstance(x, (ast.For, ast.AsyncFor, ast.While)) for x in ast.walk(fnode))
 
 
 _DICT_READERS = {"items", "keys", "values", "get", "copy"}
@@ -260,6 +264,29 @@ def _propagate_dict_literals(fn):
     sub = _ConstSubst(cands)
     fn.body = [sub.visit(st) for st in fn.body]
     return len(cands)
+
+
+class _GetSetAttr(ast.NodeTransformer):
+    """N10:  getattr(x, "name")  ==>  x.name ;   setattr(x, "name", v)  as a statement  ==>  x.name = v     (identifier literals only, two-argument getattr)"""
+
+    def __init__(self):
+        self.count = 0
+
+    def visit_Call(self, n):
+        self.generic_visit(n)
+        if isinstance(n.func, ast.Name) and n.func.id == "getattr" and len(n.args) == 2 and not n.keywords and isinstance(n.args[1], ast.Constant) and isinstance(n.args[1].value, str) and n.args[1].value.isidentifier():
+            self.count += 1
+            return ast.copy_location(ast.Attribute(value=n.args[0], attr=n.args[1].value, ctx=ast.Load()), n)
+        return n
+
+    def visit_Expr(self, n):
+        self.generic_visit(n)
+        c = n.value
+        if isinstance(c, ast.Call) and isinstance(c.func, ast.Name) and c.func.id == "setattr" and len(c.args) == 3 and not c.keywords and isinstance(c.args[1], ast.Constant) and isinstance(c.args[1].value, str) and c.args[1].value.isidentifier():
+            self.count += 1
+            tgt = ast.copy_location(ast.Attribute(value=c.args[0], attr=c.args[1].value, ctx=ast.Store()), n)
+            return ast.copy_location(ast.Assign(targets=[tgt], value=c.args[2], type_comment=None), n)
+        return n
 
 
 class _AnyAll(ast.NodeTransformer):
@@ -976,6 +1003,8 @@ def normalise(tree):
     n_inlined = n_inlined0 + _inline_wrappers(tree)
     aa = _AnyAll()
     aa.visit(tree)
+    gs = _GetSetAttr()
+    gs.visit(tree)
     tables = _module_tables(tree)
     n_unrolled = 0
     for fn in [n for n in ast.walk(tree) if isinstance(n, (ast.FunctionDef, ast.AsyncFunctionDef))]:
@@ -995,4 +1024,4 @@ def normalise(tree):
     _Updates().visit(tree)
     n_upd = sum(1 for n in ast.walk(tree) if isinstance(n, ast.Assign)) - before
     ast.fix_missing_locations(tree)
-    return tree, {"aliases_inlined": n_alias, "update_keys_split": n_upd, "table_loops_unrolled": n_unrolled, "wrappers_inlined": n_inlined, "expression_helpers_inlined": n_expr, "noreturn_helpers_inlined": n_noret, "flags_inlined": n_flags, "dict_literals_propagated": n_dict, "any_all_expanded": aa.count, "inlined_helpers": sorted(set(_INLINED))}
+    return tree, {"aliases_inlined": n_alias, "update_keys_split": n_upd, "table_loops_unrolled": n_unrolled, "wrappers_inlined": n_inlined, "expression_helpers_inlined": n_expr, "noreturn_helpers_inlined": n_noret, "flags_inlined": n_flags, "dict_literals_propagated": n_dict, "any_all_expanded": aa.count, "getattr_setattr_folded": gs.count, "inlined_helpers": sorted(set(_INLINED))}
